@@ -15,6 +15,10 @@ UNIT_MAP = {
     'hash_map': ['hash_map', 'cao_lang_table'],
     'cao_lang_table': ['cao_lang_table'],
     'object_laws': ['object_laws'],
+    'names': ['name_resolution'],
+    'imports': ['name_resolution'],
+    'modules': ['name_resolution'],
+    'resolve': ['name_resolution'],
 }
 _built = {}
 
